@@ -3,8 +3,9 @@ CONSTANTS
   MaxCmd = 1
   MaxVar = 1
   NCtx = 1
+  Nesting = FALSE
   HookKinds = {"none", "fail"}
 SPECIFICATION Spec
-INVARIANTS CommandsAfterDependencies StopsAtFailure FinalOK RunOnlyWhileStageRunning UpBeforeUse DownAfterAll OneUpAtATime
+INVARIANTS CommandsAfterDependencies StopsAtFailure FinalOK RunOnlyWhileStageRunning UpBeforeUse DownAfterAll OneUpAtATime NothingRunsAtReturn
 PROPERTY Terminates
 CHECK_DEADLOCK FALSE
